@@ -134,11 +134,14 @@ MCalls(op) ==
 (* -------------- program-level effect of an operation ------------------- *)
 FirstId(cs, c) == LET s == SelectSeq(cs, LAMBDA x : x.call = c) IN IF s = << >> THEN 0 ELSE s[1].id
 
+InGuardOf(h, t) == hs[h].st \in {"own", "nown"} /\ \E g \in GS : gs[g].st = "own" /\ gs[g].h = h /\ gs[g].t = t
 FirstRet(cs, c) == LET s == SelectSeq(cs, LAMBDA x : x.call = c) IN IF s = << >> THEN 0 ELSE s[1].ret
 
 Pre(op) ==
-  CASE op.op = "new" -> hs[op.h].st = "free" /\ (op.pk = "of" => hs[op.p].st \in {"live", "none"})
-    [] op.op = "clone" -> hs[op.h].st \in {"live", "none"} /\ hs[op.h2].st = "free"
+  \* (a handle that lives inside an owned entered guard can still be named as explicit parent - `parent: &guard` - and cloned -
+  \* `guard.clone()` yields a Span through Deref - by the thread that holds the guard)
+  CASE op.op = "new" -> hs[op.h].st = "free" /\ (op.pk = "of" => hs[op.p].st \in {"live", "none"} \/ InGuardOf(op.p, op.t))
+    [] op.op = "clone" -> (hs[op.h].st \in {"live", "none"} \/ InGuardOf(op.h, op.t)) /\ hs[op.h2].st = "free"
     [] op.op = "drop" -> hs[op.h].st \in {"live", "none"} /\ \A g \in GS : ~(gs[g].st \in {"borrow", "scope"} /\ gs[g].h = op.h)
     [] op.op \in {"enter", "scope_begin"} -> hs[op.h].st \in {"live", "none"} /\ gs[op.g].st = "free"
                                             /\ (op.op = "scope_begin" => TRUE)
